@@ -68,6 +68,28 @@ class HbDevice(PowHsm):
         return super().ui(apdu)
 
 
+# byte patterns that coincide with constants of the protocol stack: status words, the class byte,
+# public-key prefixes, DER tags, ASCII of the textual headers, JSON-significant bytes
+PATTERNS = [b"\x90\x00", b"\x6a\x8f", b"\x69\x82", b"\x04", b"\x04\x04", b"\x03\x03", b"\x02\x02", b"\x80",
+            b"\x00", b"\x00\x00", b"\xff", b"\x30", b"\x20", b"\x0a", b"\x0d\x0a", b"\x22", b"\x5c", b"\x3a", b"\x2e\x35"]
+
+
+def shaped(rng, n, pat):
+    """n bytes that begin and end with the pattern"""
+    mid = rng.bytes(max(0, n - 2 * len(pat)))
+    return (pat + mid + pat)[:n] if n >= 2 * len(pat) else (pat * n)[:n]
+
+
+def der_of(r, s):
+    def enc(b):
+        b = b.lstrip(b"\x00") or b"\x00"
+        if b[0] & 0x80:
+            b = b"\x00" + b
+        return b"\x02" + bytes([len(b)]) + b
+    body = enc(r) + enc(s)
+    return b"\x30" + bytes([len(body)]) + body
+
+
 class C13(Check):
     id = "C13"
     level = "exploration"
@@ -114,6 +136,8 @@ class C13(Check):
         for how in ("plain", "bringup", "relink"):
             for order in (0, 1):
                 cs.append({"kind": "history", "how": how, "order": order})
+        for i in range(len(PATTERNS)):
+            cs.append({"kind": "pattern", "pat": i})
         return cs
 
     def viol(self, vs, clause, detail, case, choices, observed, expected):
@@ -164,7 +188,93 @@ class C13(Check):
             self.ui_hb(case, stats, vs)
         elif k == "history":
             self.history(case, stats, vs)
+        elif k == "pattern":
+            self.pattern(case, stats, vs)
         return vs
+
+    def pattern(self, case, stats, vs):
+        """every reported datum begins and ends with one byte pattern that means something elsewhere
+        in the stack (status word, class byte, key prefix, DER tag, header ASCII): reported verbatim"""
+        pat = PATTERNS[case["pat"]]
+        rng = Rng("c13-pattern-%d" % case["pat"])
+        names = list(DOC_HASH_NAMES)
+
+        def setup(dev):
+            dev.hashes = {self.sel[DOC_HASH_NAMES[n]]: shaped(rng, 32, pat) for n in names}
+            dev.difficulty = int.from_bytes(shaped(rng, 36, pat), "big")
+            dev.min_difficulty = int.from_bytes(shaped(rng, 36, pat), "big")
+            dev.checkpoint = shaped(rng, 32, pat)
+            dev.flags, dev.network = (1, 0, 1), 2
+            dev.pubkey_override = b"\x04" + shaped(rng, 32, pat) + shaped(rng, 32, pat)
+            dev.app_hash = shaped(rng, 32, pat)
+            dev.ui_hash = shaped(rng, 32, pat)
+            return dev
+        c = dict(case)
+        # state, parameters, public key
+        dev = setup(self.mkdev())
+        proto = harness.make_protocol(World(dev))
+        for name, req in (("state", {"command": "blockchainState", "version": 5}),
+                          ("params", {"command": "blockchainParameters", "version": 5}),
+                          ("pubkey", {"command": "getPubKey", "version": 5, "keyId": reqs.PATHS[1]}),
+                          ("pubkey-v1", None)):
+            stats.evaluations += 1
+            if name == "pubkey-v1":
+                proto = harness.make_protocol(World(dev), v1=True)
+                req = {"command": "getPubKey", "version": 1, "keyId": reqs.PATHS[3]}
+            reply, exc = harness.handle_request(proto, dict(req))
+            stats.observe(("pattern", case["pat"], name, reply.get("errorcode") if isinstance(reply, dict) else None),
+                          nontrivial=True)
+            if name == "state":
+                self.verify_state(dev, reply, exc, c, vs, ":pattern")
+            elif name == "params":
+                self.verify_params(dev, reply, exc, c, vs, ":pattern")
+            else:
+                want = dev.pubkey_override.hex()
+                if exc is not None or not isinstance(reply, dict) or reply.get("errorcode") != 0 \
+                        or reply.get("pubKey") != want:
+                    self.viol(vs, "pubkey:pattern", name, c, None, {"reply": reply, "exc": exc}, {"pubKey": want})
+        # heartbeats: key with each prefix and an X that begins with the prefix byte, user-defined value,
+        # r and s in the pattern
+        for prefix in (2, 3, 4):
+            for ui in (False, True):
+                stats.evaluations += 1
+                ud = shaped(rng, 32 if ui else 16, pat).hex()
+                r, s_ = shaped(rng, 32, pat), shaped(rng, 32, pat)
+                sig = der_of(r, s_)
+
+                def run(ctx, prefix=prefix, ui=ui, sig=sig):
+                    dev = setup(self.mkdev(cls=HbDevice, ctx=ctx))
+                    dev.hb_pubkey = bytes([prefix]) + shaped(Rng("c13-hbk-%d-%d" % (case["pat"], prefix)), 32,
+                                                             bytes([prefix]) + pat)
+                    dev.signature_for = lambda material: sig
+                    w = World(dev)
+                    proto = harness.make_protocol(w)
+                    reply, exc = harness.handle_request(
+                        proto, {"command": "uiHeartbeat" if ui else "signerHeartbeat", "version": 5, "udValue": ud})
+                    return dev, w, reply, exc
+                ctx, (dev, w, reply, exc) = run_once(run, [])
+                code = reply.get("errorcode") if isinstance(reply, dict) else None
+                stats.observe(("pattern-hb", case["pat"], prefix, ui, code), nontrivial=True)
+                tag = "ui" if ui else "signer"
+                if exc is not None or code != 0:
+                    self.viol(vs, "heartbeat-fails:pattern", tag, c, None, {"reply": reply, "exc": exc},
+                              {"errorcode": 0})
+                    continue
+                if ui and dev.mode != MODE_SIGNER:
+                    self.viol(vs, "ui-heartbeat-mode:pattern", "not-signer", c, None, {"final_mode": dev.mode},
+                              {"final_mode": MODE_SIGNER})
+                rs = ref_der(sig)
+                if ui:
+                    msg = b"HSM:UI:HB:5.4:" + bytes.fromhex(ud)
+                else:
+                    msg = (b"HSM:SIGNER:HB:5.4:" + dev.hashes[self.sel["BEST_BLOCK"]]
+                           + dev.hashes[self.sel["ANCESTOR_RECEIPT_ROOT"]][:8] + bytes.fromhex(ud))
+                want = {"pubKey": dev.hb_pubkey.hex(), "tweak": (dev.ui_hash if ui else dev.app_hash).hex(),
+                        "message": msg.hex(), "signature": {"r": rs[0].hex(), "s": rs[1].hex()}}
+                for kk, v in want.items():
+                    if reply.get(kk) != v:
+                        self.viol(vs, "heartbeat-field:pattern", "%s:%s" % (tag, kk), c, None,
+                                  {kk: reply.get(kk)}, {kk: v})
 
     def history(self, case, stats, vs):
         """the same queries twice on one manager, the device's data changed in between (advance
